@@ -62,6 +62,7 @@ def toWalker (w : CfiStackWalker) (fwd : List (Cfi.Name × UInt64)) : Cfi.Walker
     callee := (registers w.cpu.tbl).filterMap fun r => (calleeView w r).map fun v => (utf8 r, UInt64.ofNat v)
     memBase := w.stack.base
     mem := w.stack.bytes
+    be := w.stack.bigEndian
     fwd := fwd }
 
 theorem lookup_filterMap_key (l : List String) (g : String → Option String) (n : String) :
